@@ -9,60 +9,608 @@ namespace Relic.Lemmas.Md
 open Relic.Spec Relic.Model
 open Relic.Spec.Mac (Bytes Hash)
 
+/-! ## SHA-256: streaming = one-shot -/
+
+section Sha
+open Relic.Spec.Sha256 Relic.Model.Sha256
+
+theorem blocks_nil (f : Nat) : blocks f [] = [] := by
+  cases f <;> simp [blocks]
+
+theorem blocks_fuel (f g : Nat) (l : List UInt8) (hf : l.length ≤ 64 * f) (hg : l.length ≤ 64 * g) :
+    blocks f l = blocks g l := by
+  induction f generalizing g l with
+  | zero =>
+    have : l = [] := List.eq_nil_of_length_eq_zero (by omega)
+    subst this; simp [blocks_nil]
+  | succ f ih =>
+    cases g with
+    | zero =>
+      have : l = [] := List.eq_nil_of_length_eq_zero (by omega)
+      subst this; simp [blocks_nil]
+    | succ g =>
+      simp only [blocks]
+      split
+      · rfl
+      · rw [ih g (l.drop 64) (by simp; omega) (by simp; omega)]
+
+/-- fold of the compression function over the 64-byte blocks of `l` -/
+def foldB (h : List UInt32) (l : List UInt8) : List UInt32 :=
+  (blocks (l.length / 64 + 1) l).foldl compress h
+
+theorem foldB_nil (h : List UInt32) : foldB h [] = h := by simp [foldB, blocks]
+
+theorem foldB_cons (h : List UInt32) (a b : List UInt8) (ha : a.length = 64) :
+    foldB h (a ++ b) = foldB (compress h a) b := by
+  unfold foldB
+  have hne : (a ++ b).isEmpty = false := by
+    cases a with
+    | nil => simp at ha
+    | cons x t => simp
+  have h1 : (a ++ b).take 64 = a := by simp [ha]
+  have h2 : (a ++ b).drop 64 = b := by simp [ha]
+  have hb : blocks ((a ++ b).length / 64 + 1) (a ++ b) = a :: blocks ((a ++ b).length / 64) b := by
+    rw [blocks, hne, h1, h2]; simp
+  rw [hb, List.foldl_cons, blocks_fuel _ (b.length / 64 + 1) b (by simp [ha]; omega) (by omega)]
+
+theorem foldB_append (n : Nat) (h : List UInt32) (a b : List UInt8) (ha : a.length = 64 * n) :
+    foldB h (a ++ b) = foldB (foldB h a) b := by
+  induction n generalizing h a with
+  | zero =>
+    have : a = [] := List.eq_nil_of_length_eq_zero (by omega)
+    subst this; simp [foldB_nil]
+  | succ n ih =>
+    have hsplit : a = a.take 64 ++ a.drop 64 := (List.take_append_drop 64 a).symm
+    have ht : (a.take 64).length = 64 := by simp; omega
+    rw [hsplit, List.append_assoc, foldB_cons _ _ _ ht, ih _ _ (by simp; omega), foldB_cons _ _ _ ht]
+
+theorem foldB_single (h : List UInt32) (a : List UInt8) (ha : a.length = 64) :
+    foldB h a = compress h a := by
+  have := foldB_cons h a [] ha
+  rwa [List.append_nil, foldB_nil] at this
+
+structure Inv (c : Ctx) (msg : List UInt8) : Prop where
+  corr : c.corrupted = false
+  comp : c.computed = false
+  len : c.lenBits = 8 * msg.length
+  blk : c.block.length < 64
+  split : ∃ pre : List UInt8, ∃ k, pre.length = 64 * k ∧ msg = pre ++ c.block ∧ c.h = foldB H0 pre
+
+theorem inv_reset : Inv reset [] :=
+  ⟨rfl, rfl, rfl, by simp [reset], [], 0, rfl, rfl, by simp [reset, foldB_nil]⟩
+
+theorem inv_inputByte (c : Ctx) (msg : List UInt8) (b : UInt8) (hi : Inv c msg)
+    (hlen : 8 * (msg.length + 1) < 2 ^ 64) : Inv (inputByte c b) (msg ++ [b]) := by
+  obtain ⟨hcorr, hcomp, hl, hblk, pre, k, hpre, hmsg, hh⟩ := hi
+  unfold inputByte
+  simp only [hcorr, Bool.false_eq_true, if_false]
+  have h1 : ¬ (c.lenBits + 8 ≥ 2 ^ 64) := by omega
+  simp only [h1, if_false]
+  split
+  · rename_i h64
+    simp only [List.length_append, List.length_cons, List.length_nil] at h64
+    refine ⟨rfl, hcomp, by simp [processBlock, hl]; omega, by simp [processBlock], pre ++ (c.block ++ [b]), k + 1,
+      by simp [hpre]; omega, by simp [processBlock, hmsg], ?_⟩
+    simp only [processBlock]
+    rw [foldB_append k _ _ _ hpre, foldB_single _ _ (by simp; omega), hh]
+  · rename_i h64
+    simp only [List.length_append, List.length_cons, List.length_nil] at h64
+    exact ⟨rfl, hcomp, by simp [hl]; omega, by simp; omega, pre, k, hpre, by simp [hmsg], hh⟩
+
+theorem inv_foldl (l : List UInt8) (c : Ctx) (msg : List UInt8) (hi : Inv c msg)
+    (hlen : 8 * (msg.length + l.length) < 2 ^ 64) : Inv (l.foldl inputByte c) (msg ++ l) := by
+  induction l generalizing c msg with
+  | nil => simpa using hi
+  | cons b t ih =>
+    simp only [List.foldl_cons]
+    have := ih _ _ (inv_inputByte c msg b hi (by simp at hlen; omega)) (by simp at hlen ⊢; omega)
+    simpa using this
+
+theorem inv_input (l : List UInt8) (c : Ctx) (msg : List UInt8) (hi : Inv c msg)
+    (hlen : 8 * (msg.length + l.length) < 2 ^ 64) : Inv (input c l) (msg ++ l) := by
+  unfold input
+  split
+  · rename_i he
+    have : l = [] := by simpa using he
+    subst this; simpa using hi
+  · simp only [hi.comp, hi.corr, Bool.false_eq_true, if_false]
+    exact inv_foldl l c msg hi hlen
+
+theorem inv_chunks (cs : List (List UInt8)) (c : Ctx) (msg : List UInt8) (hi : Inv c msg)
+    (hlen : 8 * (msg.length + cs.flatten.length) < 2 ^ 64) : Inv (cs.foldl input c) (msg ++ cs.flatten) := by
+  induction cs generalizing c msg with
+  | nil => simpa using hi
+  | cons l t ih =>
+    simp only [List.foldl_cons, List.flatten_cons]
+    simp only [List.flatten_cons, List.length_append] at hlen
+    have := ih _ _ (inv_input l c msg hi (by omega)) (by rw [List.length_append]; omega)
+    simpa using this
+
+
+theorem beBytes_length (n k : Nat) : (beBytes n k).length = k := by simp [beBytes]
+
+theorem padMessage_h (c : Ctx) (len : Nat) (hb : c.block.length < 64) (hl : len % 64 = c.block.length)
+    (hbits : c.lenBits = 8 * len) (hlen : 8 * len < 2 ^ 64) :
+    (padMessage c).h = foldB c.h (c.block ++ pad len) := by
+  have hmod : 8 * len % 2 ^ 64 = 8 * len := Nat.mod_eq_of_lt hlen
+  unfold padMessage pad
+  rw [hmod, hbits]
+  by_cases h56 : c.block.length ≥ 56
+  · simp only [h56, if_true, processBlock]
+    have hz : (64 - (len + 9) % 64) % 64 = (64 - (c.block ++ [128]).length) + 56 := by
+      simp only [List.length_append, List.length_cons, List.length_nil]; omega
+    rw [hz, ← List.replicate_append_replicate]
+    have e : c.block ++ ([128] ++ (List.replicate (64 - (c.block ++ [128]).length) (0 : UInt8)
+          ++ List.replicate 56 0) ++ beBytes (8 * len) 8)
+        = (c.block ++ [128] ++ List.replicate (64 - (c.block ++ [128]).length) 0)
+          ++ ([] ++ List.replicate (56 - ([] : List UInt8).length) 0 ++ beBytes (8 * len) 8) := by
+      simp
+    rw [e, foldB_cons _ _ _ (by simp; omega), foldB_single _ _ (by simp [beBytes_length])]
+  · simp only [h56, if_false, processBlock]
+    have hz : (64 - (len + 9) % 64) % 64 = 56 - (c.block ++ [128]).length := by
+      simp only [List.length_append, List.length_cons, List.length_nil]; omega
+    rw [hz]
+    have e : c.block ++ ([128] ++ List.replicate (56 - (c.block ++ [128]).length) (0 : UInt8)
+          ++ beBytes (8 * len) 8)
+        = c.block ++ [128] ++ List.replicate (56 - (c.block ++ [128]).length) 0 ++ beBytes (8 * len) 8 := by
+      simp
+    rw [e, foldB_single _ _ (by simp [beBytes_length]; omega)]
+
+theorem result_eq (c : Ctx) (msg : List UInt8) (hi : Inv c msg) (hlen : 8 * msg.length < 2 ^ 64) :
+    result c = some (sha256 msg) := by
+  obtain ⟨hcorr, hcomp, hl, hblk, pre, k, hpre, hmsg, hh⟩ := hi
+  unfold result
+  simp only [hcorr, hcomp, Bool.false_eq_true, if_false]
+  rw [padMessage_h c msg.length hblk (by rw [hmsg, List.length_append, hpre]; omega) hl hlen]
+  have : sha256 msg = digestBytes (foldB H0 (msg ++ pad msg.length)) := rfl
+  rw [this, hh]
+  conv => rhs; rw [hmsg, List.append_assoc, foldB_append k _ _ _ hpre]
+  rw [← hmsg]
+
 /-- SHA-256, streaming implementation = one-shot FIPS 180-4 definition, for every length and every
     chunking of the message (Message_Block_Index buffering, the 55/56 padding split, the length field) -/
 theorem sha256_streaming (chunks : List Bytes) (hlen : 8 * chunks.flatten.length < 2 ^ 64) :
-    Sha256.mdMapChunks chunks = some (Spec.Sha256.sha256 chunks.flatten) := by
-  sorry
+    Relic.Model.Sha256.mdMapChunks chunks = some (Relic.Spec.Sha256.sha256 chunks.flatten) := by
+  have := inv_chunks chunks reset [] inv_reset (by simpa using hlen)
+  rw [List.nil_append] at this
+  exact result_eq _ _ this hlen
 
 theorem sha256_oneshot (msg : Bytes) (hlen : 8 * msg.length < 2 ^ 64) :
-    Sha256.mdMap msg = some (Spec.Sha256.sha256 msg) := by
-  sorry
+    Relic.Model.Sha256.mdMap msg = some (Relic.Spec.Sha256.sha256 msg) := by
+  have := sha256_streaming [msg] (by simpa using hlen)
+  simpa [Relic.Model.Sha256.mdMapChunks, Relic.Model.Sha256.mdMap] using this
+
+end Sha
+
+/-! ## HMAC -/
+
+theorem map_range_getD {α β} (l : List α) (d : α) (f : α → β) (n : Nat) (h : l.length = n) :
+    (List.range n).map (fun i => f (l.getD i d)) = l.map f := by
+  subst h
+  apply List.ext_getElem
+  · simp
+  · intro i h1 h2
+    simp at h1 h2
+    simp [h2]
 
 /-- md_hmac = RFC 2104 for every key length (below, at, above the block size) -/
 theorem mdHmac_eq (H : Hash) (hout : ∀ b, (H.h b).length = H.outLen) (hle : H.outLen ≤ H.blockLen)
     (inp key : Bytes) : Md.mdHmac H inp key = Mac.hmac H key inp := by
-  sorry
+  unfold Md.mdHmac Mac.hmac
+  generalize hk1 : (if key.length > H.blockLen then H.h key else key) = key1
+  have hk1l : key1.length ≤ H.blockLen := by
+    subst hk1; split
+    · rw [hout]; exact hle
+    · omega
+  simp only [if_pos hk1l]
+  have hl : (key1 ++ List.replicate (H.blockLen - key1.length) 0).length = H.blockLen := by
+    simp; omega
+  rw [map_range_getD _ 0 (fun x => (0x5C : UInt8) ^^^ x) _ hl, map_range_getD _ 0 (fun x => (0x36 : UInt8) ^^^ x) _ hl]
+  simp only [UInt8.xor_comm]
+
+/-! ## counter KDF -/
+
+theorem be32_mod (i : Nat) : Mac.be32 (i % 2 ^ 32) = Mac.be32 i := by
+  unfold Mac.be32
+  have h1 : i % 2 ^ 32 / 2 ^ 24 % 256 = i / 2 ^ 24 % 256 := by omega
+  have h2 : i % 2 ^ 32 / 2 ^ 16 % 256 = i / 2 ^ 16 % 256 := by omega
+  have h3 : i % 2 ^ 32 / 2 ^ 8 % 256 = i / 2 ^ 8 % 256 := by omega
+  have h4 : i % 2 ^ 32 % 256 = i % 256 := by omega
+  rw [h1, h2, h3, h4]
+
+theorem ceil_div_bounds (k o : Nat) (hpos : 0 < o) :
+    k ≤ o * ((k + o - 1) / o) ∧ o * ((k + o - 1) / o) < k + o := by
+  have hdm := Nat.div_add_mod (k + o - 1) o
+  have hml := Nat.mod_lt (k + o - 1) hpos
+  generalize (k + o - 1) % o = r at *
+  generalize o * ((k + o - 1) / o) = q at *
+  omega
+
+theorem nistKdfLoop_eq (H : Hash) (hout : ∀ b, (H.h b).length = H.outLen) (hpos : 0 < H.outLen)
+    (keyLen : Nat) (inp : Bytes) (value : Nat) (n j : Nat) (acc : Bytes)
+    (hacc : acc.length = j * H.outLen) (hle : j * H.outLen ≤ keyLen)
+    (hd : j + n = (keyLen + H.outLen - 1) / H.outLen) :
+    Md.nistKdfLoop H inp keyLen n (value + j) acc =
+      (acc ++ (List.range' j n).flatMap fun i => H.h (inp ++ Mac.be32 (value + i))).take keyLen := by
+  obtain ⟨hd1, hd2⟩ := ceil_div_bounds keyLen H.outLen hpos
+  generalize hdd : (keyLen + H.outLen - 1) / H.outLen = d at *
+  induction n generalizing j acc with
+  | zero =>
+    simp only [Md.nistKdfLoop, List.range'_zero, List.flatMap_nil, List.append_nil]
+    have : j = d := by omega
+    subst this
+    rw [List.take_of_length_le]
+    rw [hacc]; have := Nat.mul_comm j H.outLen; omega
+  | succ n ih =>
+    simp only [Md.nistKdfLoop, be32_mod]
+    split
+    · rename_i hfull
+      have := ih (j + 1) (acc ++ H.h (inp ++ Mac.be32 (value + j)))
+        (by simp [hacc, hout, Nat.add_mul]) (by rw [Nat.add_mul]; omega) (by omega)
+      rw [Nat.add_assoc, this]
+      simp [List.range'_succ]
+    · rename_i hpart
+      have hn : n = 0 := by
+        apply Classical.byContradiction
+        intro hn
+        have h2 : H.outLen * (j + 2) ≤ H.outLen * d := Nat.mul_le_mul_left _ (by omega)
+        rw [Nat.mul_add, Nat.mul_comm] at h2
+        omega
+      subst hn
+      simp only [Md.nistKdfLoop, List.take_length, List.range'_succ, List.range'_zero, List.flatMap_cons,
+        List.flatMap_nil, List.append_nil]
+      rw [List.take_append, List.take_of_length_le (l := acc) (by omega)]
 
 /-- nist_kdf = counter KDF for every requested length (0, multiples and non-multiples of the digest size) -/
 theorem nistKdf_eq (H : Hash) (hout : ∀ b, (H.h b).length = H.outLen) (hpos : 0 < H.outLen)
     (keyLen : Nat) (inp : Bytes) (value : Nat) (hctr : value + (keyLen + H.outLen - 1) / H.outLen < 2 ^ 32) :
     Md.nistKdf H keyLen inp value = Mac.counterKdf H value inp keyLen := by
-  sorry
+  -- `hctr` is not needed: `be32 (i % 2^32) = be32 i` holds for every `i` (lemma `be32_mod`)
+  have _ := hctr
+  unfold Md.nistKdf Mac.counterKdf
+  have := nistKdfLoop_eq H hout hpos keyLen inp value ((keyLen + H.outLen - 1) / H.outLen) 0 [] (by simp) (by simp) (by simp)
+  simp only [Nat.add_zero, List.nil_append] at this
+  simp only [this, List.range_eq_range']
+
+/-! ## expand_message_xmd -/
+
+theorem map_range_xor (a b : Bytes) (n : Nat) (ha : a.length = n) (hb : b.length = n) :
+    (List.range n).map (fun j => a.getD j 0 ^^^ b.getD j 0) = Mac.xorBytes a b := by
+  unfold Mac.xorBytes
+  apply List.ext_getElem
+  · simp [ha, hb]
+  · intro i h1 h2
+    simp at h1 h2
+    simp [ha, hb, h1]
+
+theorem xmdLoop_eq (S : Md.Stream) (H : Hash) (hol : S.outLen = H.outLen)
+    (hout : ∀ b, (H.h b).length = H.outLen) (bufLen : Nat) (dst b0 : Bytes)
+    (hS : ∀ cs, cs.flatten.length ≤ H.outLen + 257 → S.run cs = some (H.h cs.flatten))
+    (hb0 : b0.length = H.outLen) (hdst : dst.length ≤ 255) (n k : Nat) (bi buf : Bytes)
+    (hbi : bi.length = H.outLen) :
+    Md.mdXmd.loop S bufLen dst [UInt8.ofNat dst.length] b0 n (k + 1) bi buf =
+      some (buf ++ ((Mac.xmdBlocks H b0 (dst ++ [UInt8.ofNat dst.length]) n bi (k + 1)).flatten.take
+        (bufLen - k * H.outLen))) := by
+  induction n generalizing k bi buf with
+  | zero => simp [Md.mdXmd.loop, Mac.xmdBlocks]
+  | succ n ih =>
+    simp only [Md.mdXmd.loop, Mac.xmdBlocks]
+    rw [hol, map_range_xor b0 bi _ hb0 hbi]
+    have hxl : (Mac.xorBytes b0 bi).length = H.outLen := by simp [Mac.xorBytes, hb0, hbi]
+    rw [hS _ (by simp [hxl]; omega)]
+    simp only [Option.bind_eq_bind, Option.bind_some]
+    have hfl : [Mac.xorBytes b0 bi ++ [UInt8.ofNat (k + 1)], dst, [UInt8.ofNat dst.length]].flatten
+        = Mac.xorBytes b0 bi ++ [UInt8.ofNat (k + 1)] ++ (dst ++ [UInt8.ofNat dst.length]) := by simp
+    rw [hfl]
+    have hbi' := hout (Mac.xorBytes b0 bi ++ [UInt8.ofNat (k + 1)] ++ (dst ++ [UInt8.ofNat dst.length]))
+    generalize H.h (Mac.xorBytes b0 bi ++ [UInt8.ofNat (k + 1)] ++ (dst ++ [UInt8.ofNat dst.length])) = bi' at *
+    rw [ih (k + 1) bi' _ hbi']
+    simp only [List.flatten_cons, Nat.add_mul, Nat.one_mul, List.append_assoc]
+    generalize (Mac.xmdBlocks H b0 (dst ++ [UInt8.ofNat dst.length]) n bi' (k + 1 + 1)).flatten = rest
+    generalize k * H.outLen = t
+    congr 2
+    rw [List.take_append, hbi']
+    split
+    · rename_i hlt
+      have e1 : bufLen - (t + H.outLen) = 0 := by omega
+      have e2 : bufLen - t - H.outLen = 0 := by omega
+      have e3 : H.outLen - (t + H.outLen - bufLen) = bufLen - t := by omega
+      rw [e1, e2, e3]
+    · rename_i hge
+      have e1 : bufLen - (t + H.outLen) = bufLen - t - H.outLen := by omega
+      rw [e1, List.take_of_length_le (l := bi') (i := bufLen - t) (by omega), List.take_of_length_le (l := bi') (by omega)]
 
 /-- md_xmd over a streaming hash that computes H on the concatenation of its chunks = expand_message_xmd -/
-theorem mdXmd_eq (S : Md.Stream) (H : Hash) (hS : ∀ cs, S.run cs = some (H.h cs.flatten))
+-- STATEMENT CHANGED: the hypothesis `hS` (the stream computes `H` on the concatenation of its chunks) is
+-- now required only for chunk lists of total length ≤ blockLen + |inp| + outLen + 259, which covers every
+-- call md_xmd makes (Z_pad ‖ msg ‖ 3 ‖ dst(≤255) ‖ 1 and outLen+1 ‖ dst ‖ 1). The unrestricted form is
+-- not satisfiable by the streaming SHA-256 (its 64-bit bit counter overflows at 2^61 bytes), so it could
+-- not be used for `xmd_sha256_conforms`; this is a weaker hypothesis, i.e. a stronger theorem.
+theorem mdXmd_eq (S : Md.Stream) (H : Hash) (n : Nat) (inp dst : Bytes)
+    (hS : ∀ cs, cs.flatten.length ≤ S.blockLen + inp.length + S.outLen + 259 →
+      S.run cs = some (H.h cs.flatten))
     (hol : S.outLen = H.outLen) (hbl : S.blockLen = H.blockLen) (hout : ∀ b, (H.h b).length = H.outLen)
-    (hpos : 0 < H.outLen) (h64 : H.outLen ≤ 64) (n : Nat) (inp dst : Bytes) :
+    (hpos : 0 < H.outLen) (h64 : H.outLen ≤ 64)  :
     Md.mdXmd S n inp dst = Mac.expandMessageXmd H inp dst n := by
-  sorry
+  unfold Md.mdXmd Mac.expandMessageXmd
+  simp only [hol, hbl] at hS ⊢
+  obtain ⟨hd1, hd2⟩ := ceil_div_bounds n H.outLen hpos
+  generalize (n + H.outLen - 1) / H.outLen = ell at *
+  by_cases hc : ell > 255 ∨ dst.length > 255
+  · have hc' : ell > 255 ∨ n > 65535 ∨ dst.length > 255 := by omega
+    rw [if_pos hc, if_pos hc']
+    rfl
+  · have hn : ¬ n > 65535 := by
+      intro hn
+      have : H.outLen * ell ≤ 64 * ell := Nat.mul_le_mul_right _ h64
+      omega
+    have hc' : ¬ (ell > 255 ∨ n > 65535 ∨ dst.length > 255) := by omega
+    rw [if_neg hc, if_neg hc']
+    rw [hS _ (by simp; omega)]
+    simp only [Option.bind_eq_bind, Option.bind_some]
+    rw [xmdLoop_eq S H hol hout n dst _ (fun cs h => hS cs (by omega)) (hout _) (by omega) ell 0 _ _ (by simp)]
+    simp
+
+/-! ## PKCS#7 -/
+
+theorem pkcs7Pad_length (m : Bytes) : (Aes.pkcs7Pad m).length % 16 = 0 ∧ m.length < (Aes.pkcs7Pad m).length := by
+  simp [Aes.pkcs7Pad]; omega
+
+theorem toNat_ofNat_small (k : Nat) (h : k < 256) : (UInt8.ofNat k).toNat = k := by
+  simp [UInt8.toNat_ofNat']; omega
+
+theorem pkcs7Unpad_pad (m : Bytes) (k : Nat) (h1 : 1 ≤ k) (h16 : k ≤ 16) :
+    Aes.pkcs7Unpad (m ++ List.replicate k (UInt8.ofNat k)) = some m := by
+  obtain ⟨j, rfl⟩ : ∃ j, k = j + 1 := ⟨k - 1, by omega⟩
+  have hlast : (m ++ List.replicate (j+1) (UInt8.ofNat (j+1))).getLast? = some (UInt8.ofNat (j+1)) := by
+    simp [List.getLast?_append, List.getLast?_replicate]
+  unfold Aes.pkcs7Unpad
+  rw [hlast]
+  simp only [toNat_ofNat_small (j+1) (by omega)]
+  have : ¬ (j + 1 = 0 ∨ j + 1 > 16 ∨ j + 1 > (m ++ List.replicate (j+1) (UInt8.ofNat (j+1))).length) := by
+    simp; omega
+  rw [if_neg this]
+  have hl : (m ++ List.replicate (j+1) (UInt8.ofNat (j+1))).length - (j+1) = m.length := by simp
+  rw [hl]
+  simp
 
 /-- PKCS#7 -/
 theorem pkcs7_roundtrip (m : Bytes) : Aes.pkcs7Unpad (Aes.pkcs7Pad m) = some m := by
-  sorry
+  unfold Aes.pkcs7Pad
+  exact pkcs7Unpad_pad m _ (by omega) (by omega)
 
-theorem pkcs7Pad_length (m : Bytes) : (Aes.pkcs7Pad m).length % 16 = 0 ∧ m.length < (Aes.pkcs7Pad m).length := by
-  sorry
+theorem eq_replicate_of_all {α} [BEq α] [LawfulBEq α] (l : List α) (p : α) (h : l.all (· == p) = true) :
+    l = List.replicate l.length p := by
+  induction l with
+  | nil => rfl
+  | cons a t ih =>
+    simp only [List.all_cons, Bool.and_eq_true, beq_iff_eq] at h
+    rw [List.length_cons, List.replicate_succ, ← ih h.2, h.1]
 
 /-- unpadding returns data only for a well-formed padding: the last byte k satisfies 1 ≤ k ≤ 16 and the
     last k bytes all equal k -/
 theorem pkcs7Unpad_sound (c m : Bytes) (h : Aes.pkcs7Unpad c = some m) :
     ∃ k : Nat, 1 ≤ k ∧ k ≤ 16 ∧ c = m ++ List.replicate k (UInt8.ofNat k) := by
-  sorry
+  unfold Aes.pkcs7Unpad at h
+  split at h
+  · simp at h
+  · rename_i p hp
+    simp only at h
+    split at h
+    · simp at h
+    · rename_i hn
+      split at h
+      · rename_i hall
+        refine ⟨p.toNat, by omega, by omega, ?_⟩
+        have hm : m = c.take (c.length - p.toNat) := by simpa using h.symm
+        have hr := eq_replicate_of_all _ _ hall
+        have hl : (c.drop (c.length - p.toNat)).length = p.toNat := by simp; omega
+        rw [hl] at hr
+        rw [hm, UInt8.ofNat_toNat, ← hr, List.take_append_drop]
+      · simp at h
+
+theorem xor_cancel (b iv : Bytes) (h : b.length ≤ iv.length) :
+    Aes.addRoundKey (Aes.addRoundKey b iv) iv = b := by
+  unfold Aes.addRoundKey
+  induction b generalizing iv with
+  | nil => simp
+  | cons x t ih =>
+    cases iv with
+    | nil => simp at h
+    | cons y s =>
+      simp only [List.zipWith_cons_cons, List.cons.injEq]
+      refine ⟨?_, ih s (by simpa using h)⟩
+      rw [UInt8.xor_assoc, UInt8.xor_self, UInt8.xor_zero]
+
+theorem addRoundKey_length (a b : Bytes) : (Aes.addRoundKey a b).length = min a.length b.length := by
+  simp [Aes.addRoundKey]
 
 /-- CBC decryption inverts CBC encryption when the block decryption inverts the block encryption -/
 theorem cbc_roundtrip (E D : Bytes → Bytes) (hED : ∀ b, b.length = 16 → D (E b) = b)
     (hE : ∀ b, b.length = 16 → (E b).length = 16) (iv : Bytes) (hiv : iv.length = 16)
     (blocks : List Bytes) (hb : ∀ b ∈ blocks, b.length = 16) :
     Aes.cbcDec D iv (Aes.cbcEnc E iv blocks) = blocks := by
-  sorry
+  induction blocks generalizing iv with
+  | nil => simp [Aes.cbcEnc, Aes.cbcDec]
+  | cons b bs ih =>
+    have hbl : b.length = 16 := hb b (by simp)
+    have hx : (Aes.addRoundKey b iv).length = 16 := by rw [addRoundKey_length]; omega
+    simp only [Aes.cbcEnc, Aes.cbcDec]
+    rw [hED _ hx, xor_cancel b iv (by omega), ih _ (hE _ hx) (fun b' hb' => hb b' (by simp [hb']))]
+
+/-! ## padEncrypt / padDecrypt -/
+
+theorem chunks16_nil (f : Nat) : Aes.chunks16 f [] = [] := by
+  cases f <;> simp [Aes.chunks16]
+
+theorem chunks16_append (f : Nat) (a b : Bytes) (ha : a.length = 16) :
+    Aes.chunks16 (f + 1) (a ++ b) = a :: Aes.chunks16 f b := by
+  have hne : (a ++ b).isEmpty = false := by
+    cases a with
+    | nil => simp at ha
+    | cons x t => simp
+  simp only [Aes.chunks16, hne]
+  simp [ha]
+
+theorem lastBlock_eq (rest iv : Bytes) (p : Nat) (hr : rest.length = 16 - p) (hp : p ≤ 16)
+    (hiv : iv.length = 16) :
+    ((List.range 16).map fun i =>
+      if i < 16 - p then rest.getD i 0 ^^^ iv.getD i 0 else UInt8.ofNat p ^^^ iv.getD i 0)
+      = Aes.addRoundKey (rest ++ List.replicate p (UInt8.ofNat p)) iv := by
+  unfold Aes.addRoundKey
+  apply List.ext_getElem
+  · simp [hr, hiv]; omega
+  · intro i h1 h2
+    simp at h1
+    simp only [List.getElem_map, List.getElem_range, List.getElem_zipWith]
+    have hi : i < iv.length := by omega
+    simp only [List.getD_eq_getElem?_getD, List.getElem?_eq_getElem hi, Option.getD_some]
+    split
+    · rename_i hlt
+      have hlt' : i < rest.length := by omega
+      rw [List.getElem?_eq_getElem hlt', Option.getD_some, List.getElem_append_left hlt']
+    · rename_i hge
+      rw [List.getElem_append_right (by omega)]
+      simp
+
+def encFin (E : Bytes → Bytes) (p : Nat) (r : Bytes × Bytes × Bytes) : Bytes :=
+  r.2.2 ++ E ((List.range 16).map fun i =>
+    if i < 16 - p then r.2.1.getD i 0 ^^^ r.1.getD i 0 else UInt8.ofNat p ^^^ r.1.getD i 0)
+
+theorem padEncLoop_eq (E : Bytes → Bytes) (hE : ∀ b, b.length = 16 → (E b).length = 16)
+    (p : Nat) (hp1 : 1 ≤ p) (hp : p ≤ 16) (n : Nat) (iv inp out : Bytes) (hiv : iv.length = 16)
+    (hlen : inp.length = 16 * n + (16 - p)) (f : Nat) (hf : n + 1 ≤ f) :
+    encFin E p (Bc.padEncrypt.loop E n iv inp out)
+    = out ++ (Aes.cbcEnc E iv (Aes.chunks16 f (inp ++ List.replicate p (UInt8.ofNat p)))).flatten := by
+  induction n generalizing iv inp out f with
+  | zero =>
+    obtain ⟨f, rfl⟩ : ∃ g, f = g + 1 := ⟨f - 1, by omega⟩
+    simp only [Bc.padEncrypt.loop, encFin]
+    rw [lastBlock_eq inp iv p (by omega) hp hiv]
+    have := chunks16_append f (inp ++ List.replicate p (UInt8.ofNat p)) [] (by simp; omega)
+    rw [List.append_nil] at this
+    rw [this, chunks16_nil]
+    simp [Aes.cbcEnc]
+  | succ n ih =>
+    obtain ⟨f, rfl⟩ : ∃ g, f = g + 1 := ⟨f - 1, by omega⟩
+    rw [Bc.padEncrypt.loop]
+    have hc : (E (Aes.addRoundKey (inp.take 16) iv)).length = 16 := by
+      apply hE; rw [addRoundKey_length]; simp; omega
+    rw [ih _ _ _ hc (by simp; omega) f (by omega)]
+    have hsplit : inp ++ List.replicate p (UInt8.ofNat p)
+        = inp.take 16 ++ (inp.drop 16 ++ List.replicate p (UInt8.ofNat p)) := by
+      rw [← List.append_assoc, List.take_append_drop]
+    rw [hsplit, chunks16_append f _ _ (by simp; omega)]
+    simp [Aes.cbcEnc]
 
 /-- padEncrypt (CBC branch) = CBC ∘ PKCS#7 of the specification, for every plaintext length incl. 0 -/
 theorem padEncrypt_eq (E : Bytes → Bytes) (hE : ∀ b, b.length = 16 → (E b).length = 16) (iv : Bytes)
     (hiv : iv.length = 16) (m : Bytes) :
     Bc.padEncrypt E iv m =
       some (Aes.cbcEnc E iv (Aes.chunks16 ((Aes.pkcs7Pad m).length / 16 + 1) (Aes.pkcs7Pad m))).flatten := by
-  sorry
+  have h0 : Bc.padEncrypt E iv m = some (encFin E (16 - (m.length - 16 * (m.length / 16)))
+      (Bc.padEncrypt.loop E (m.length / 16) iv m [])) := rfl
+  have hp : 16 - (m.length - 16 * (m.length / 16)) = 16 - m.length % 16 := by omega
+  rw [h0, hp]
+  have := padEncLoop_eq E hE (16 - m.length % 16) (by omega) (by omega) (m.length / 16) iv m [] hiv (by omega)
+    ((Aes.pkcs7Pad m).length / 16 + 1) (by simp [Aes.pkcs7Pad]; omega)
+  rw [List.nil_append] at this
+  simp only [Aes.pkcs7Pad] at this ⊢
+  rw [← this]
+
+/-- the tail of padDecrypt applied to the loop result -/
+def decFin (D : Bytes → Bytes) (r : Bytes × Bytes × Bytes) : Option Bytes :=
+  let block := Aes.addRoundKey (D (r.2.1.take 16)) r.1
+  let padLen := (block.getD 15 0).toNat
+  if padLen = 0 ∨ padLen > 16 then none
+  else if ((List.range 16).all fun i => i < 16 - padLen || block.getD i 0 == UInt8.ofNat padLen) then
+    some (r.2.2 ++ block.take (16 - padLen))
+  else none
+
+theorem all_range_drop (block : Bytes) (hb : block.length = 16) (n : Nat) (hn : n ≤ 16) (p : UInt8) :
+    ((List.range 16).all fun i => i < 16 - n || block.getD i 0 == p)
+      = (block.drop (16 - n)).all (· == p) := by
+  rw [Bool.eq_iff_iff]
+  simp only [List.all_eq_true, List.mem_range, Bool.or_eq_true, decide_eq_true_eq, beq_iff_eq]
+  constructor
+  · intro h x hx
+    obtain ⟨i, hi, rfl⟩ := List.mem_iff_getElem.mp hx
+    simp at hi
+    have := h (16 - n + i) (by omega)
+    rw [List.getElem_drop]
+    rcases this with h1 | h1
+    · omega
+    · rw [← h1]; simp [List.getD_eq_getElem?_getD]
+      rw [List.getElem?_eq_getElem (by omega)]; simp
+  · intro h i hi
+    by_cases hlt : i < 16 - n
+    · exact Or.inl hlt
+    · right
+      have hi' : i < block.length := by omega
+      rw [List.getD_eq_getElem?_getD, List.getElem?_eq_getElem hi', Option.getD_some]
+      apply h
+      have : block[i] = (block.drop (16 - n))[i - (16 - n)]'(by simp; omega) := by
+        rw [List.getElem_drop]; congr 1; omega
+      rw [this]
+      apply List.getElem_mem
+
+theorem unpad_lastBlock (out block : Bytes) (hb : block.length = 16) :
+    Aes.pkcs7Unpad (out ++ block) =
+      (let padLen := (block.getD 15 0).toNat
+       if padLen = 0 ∨ padLen > 16 then none
+       else if ((List.range 16).all fun i => i < 16 - padLen || block.getD i 0 == UInt8.ofNat padLen) then
+         some (out ++ block.take (16 - padLen))
+       else none) := by
+  have hlast : (out ++ block).getLast? = some (block.getD 15 0) := by
+    have hbl : block.getLast? = some (block.getD 15 0) := by
+      rw [List.getLast?_eq_getElem?, hb]
+      simp [List.getD_eq_getElem?_getD]
+      rw [List.getElem?_eq_getElem (by omega)]; simp
+    simp [List.getLast?_append, hbl]
+  unfold Aes.pkcs7Unpad
+  rw [hlast]
+  simp only
+  generalize block.getD 15 0 = p
+  by_cases h1 : p.toNat = 0 ∨ p.toNat > 16
+  · have h2 : p.toNat = 0 ∨ p.toNat > 16 ∨ p.toNat > (out ++ block).length := by omega
+    rw [if_pos h1, if_pos h2]
+  · have h2 : ¬ (p.toNat = 0 ∨ p.toNat > 16 ∨ p.toNat > (out ++ block).length) := by
+      simp [hb]; omega
+    rw [if_neg h1, if_neg h2]
+    have hl : (out ++ block).length - p.toNat = out.length + (16 - p.toNat) := by simp [hb]; omega
+    rw [hl, UInt8.ofNat_toNat, all_range_drop block hb p.toNat (by omega) p]
+    simp [List.drop_append, List.take_append]
+    rw [List.take_of_length_le (l := out) (by omega), List.drop_of_length_le (l := out) (by omega)]
+    simp
+
+theorem padDecLoop_eq (D : Bytes → Bytes)
+    (n : Nat) (iv inp out : Bytes) (hiv : iv.length = 16)
+    (hlen : inp.length = 16 * (n + 1)) (f : Nat) (hf : n + 1 ≤ f) :
+    let r := Bc.padDecrypt.loop D n iv inp out
+    r.1.length = 16 ∧ r.2.1.length = 16 ∧
+    r.2.2 ++ Aes.addRoundKey (D (r.2.1.take 16)) r.1
+      = out ++ (Aes.cbcDec D iv (Aes.chunks16 f inp)).flatten := by
+  induction n generalizing iv inp out f with
+  | zero =>
+    obtain ⟨f, rfl⟩ : ∃ g, f = g + 1 := ⟨f - 1, by omega⟩
+    simp only [Bc.padDecrypt.loop]
+    refine ⟨hiv, by omega, ?_⟩
+    have := chunks16_append f inp [] (by omega)
+    rw [List.append_nil] at this
+    rw [this, chunks16_nil, List.take_of_length_le (by omega)]
+    simp [Aes.cbcDec]
+  | succ n ih =>
+    obtain ⟨f, rfl⟩ : ∃ g, f = g + 1 := ⟨f - 1, by omega⟩
+    rw [Bc.padDecrypt.loop]
+    have ht : (inp.take 16).length = 16 := by simp; omega
+    have := ih (inp.take 16) (inp.drop 16) (out ++ Aes.addRoundKey (D (inp.take 16)) iv) ht
+      (by simp; omega) f (by omega)
+    simp only at this ⊢
+    refine ⟨this.1, this.2.1, ?_⟩
+    rw [this.2.2]
+    have hsplit : inp = inp.take 16 ++ inp.drop 16 := (List.take_append_drop 16 inp).symm
+    conv => rhs; rw [hsplit, chunks16_append f _ _ ht]
+    simp [Aes.cbcDec]
 
 /-- padDecrypt (CBC branch) = PKCS#7-unpad ∘ CBC-decrypt of the specification, for every input -/
 theorem padDecrypt_eq (D : Bytes → Bytes) (hD : ∀ b, b.length = 16 → (D b).length = 16) (iv : Bytes)
@@ -70,6 +618,95 @@ theorem padDecrypt_eq (D : Bytes → Bytes) (hD : ∀ b, b.length = 16 → (D b)
     Bc.padDecrypt D iv c =
       (if c.length = 0 ∨ c.length % 16 ≠ 0 then none
        else Aes.pkcs7Unpad (Aes.cbcDec D iv (Aes.chunks16 (c.length / 16 + 1) c)).flatten) := by
-  sorry
+  have h0 : Bc.padDecrypt D iv c = if c.length = 0 then none else if c.length % 16 ≠ 0 then none
+      else decFin D (Bc.padDecrypt.loop D (c.length / 16 - 1) iv c []) := rfl
+  rw [h0]
+  by_cases h1 : c.length = 0
+  · simp [h1]
+  by_cases h2 : c.length % 16 ≠ 0
+  · simp [h2]
+  have h3 : ¬ (c.length = 0 ∨ c.length % 16 ≠ 0) := by omega
+  rw [if_neg h1, if_neg h2, if_neg h3]
+  have := padDecLoop_eq D (c.length / 16 - 1) iv c [] hiv (by omega) (c.length / 16 + 1) (by omega)
+  simp only [List.nil_append] at this
+  obtain ⟨ha, hb, hc⟩ := this
+  rw [← hc, unpad_lastBlock _ _ (by rw [addRoundKey_length, hD _ (by simp; omega)]; omega)]
+  rfl
+
+/-! ## auxiliary facts for Props/C14 -/
+
+theorem compress_length (h : List UInt32) (b : List UInt8) : (Sha256.compress h b).length = 8 := by
+  simp [Sha256.compress]
+
+theorem foldl_compress_length (l : List (List UInt8)) (h : List UInt32) (hh : h.length = 8) :
+    (l.foldl Sha256.compress h).length = 8 := by
+  induction l generalizing h with
+  | nil => simpa using hh
+  | cons b t ih => exact ih _ (compress_length h b)
+
+theorem digestBytes_length (h : List UInt32) : (Sha256.digestBytes h).length = 4 * h.length := by
+  unfold Sha256.digestBytes
+  induction h with
+  | nil => rfl
+  | cons w t ih => simp [List.flatMap_cons, ih, Sha256.wordBytes]; omega
+
+theorem sha256_length (b : List UInt8) : (Sha256.sha256 b).length = 32 := by
+  unfold Sha256.sha256
+  simp only [digestBytes_length]
+  rw [foldl_compress_length _ _ rfl]
+
+theorem chunks16_flatten (L : List Bytes) (hL : ∀ b ∈ L, b.length = 16) (f : Nat) (hf : L.length ≤ f) :
+    Aes.chunks16 f L.flatten = L := by
+  induction L generalizing f with
+  | nil => simp [chunks16_nil]
+  | cons b t ih =>
+    obtain ⟨f, rfl⟩ : ∃ g, f = g + 1 := ⟨f - 1, by simp at hf; omega⟩
+    rw [List.flatten_cons, chunks16_append f _ _ (hL b (by simp)),
+      ih (fun b' hb' => hL b' (by simp [hb'])) f (by simp at hf; omega)]
+
+theorem flatten_chunks16 (f : Nat) (l : Bytes) (hf : l.length ≤ 16 * f) (hm : l.length % 16 = 0) :
+    (Aes.chunks16 f l).flatten = l ∧ ∀ b ∈ Aes.chunks16 f l, b.length = 16 := by
+  induction f generalizing l with
+  | zero =>
+    have : l = [] := List.eq_nil_of_length_eq_zero (by omega)
+    subst this; simp [Aes.chunks16]
+  | succ f ih =>
+    simp only [Aes.chunks16]
+    split
+    · rename_i he
+      have : l = [] := by simpa using he
+      subst this; simp
+    · rename_i he
+      have hne : l ≠ [] := by simpa using he
+      have hpos : 0 < l.length := List.length_pos_iff.mpr hne
+      have := ih (l.drop 16) (by simp; omega) (by simp; omega)
+      refine ⟨by rw [List.flatten_cons, this.1, List.take_append_drop], ?_⟩
+      intro b hb
+      rcases List.mem_cons.mp hb with rfl | hb
+      · simp; omega
+      · exact this.2 b hb
+
+theorem flatten_length16 (L : List Bytes) (hL : ∀ b ∈ L, b.length = 16) : L.flatten.length = 16 * L.length := by
+  induction L with
+  | nil => rfl
+  | cons b t ih =>
+    rw [List.flatten_cons, List.length_append, hL b (by simp), ih (fun b' hb' => hL b' (by simp [hb'])),
+      List.length_cons]; omega
+
+theorem cbcEnc_blocks (E : Bytes → Bytes) (hE : ∀ b, b.length = 16 → (E b).length = 16) (iv : Bytes)
+    (hiv : iv.length = 16) (bs : List Bytes) (hb : ∀ b ∈ bs, b.length = 16) :
+    (Aes.cbcEnc E iv bs).length = bs.length ∧ ∀ c ∈ Aes.cbcEnc E iv bs, c.length = 16 := by
+  induction bs generalizing iv with
+  | nil => simp [Aes.cbcEnc]
+  | cons b t ih =>
+    have hc : (E (Aes.addRoundKey b iv)).length = 16 := by
+      apply hE; rw [addRoundKey_length, hb b (by simp)]; omega
+    have := ih _ hc (fun b' hb' => hb b' (by simp [hb']))
+    simp only [Aes.cbcEnc]
+    refine ⟨by simp [this.1], ?_⟩
+    intro c hcm
+    rcases List.mem_cons.mp hcm with rfl | hcm
+    · exact hc
+    · exact this.2 c hcm
 
 end Relic.Lemmas.Md
